@@ -79,6 +79,13 @@ def fn_breakdown(out):
     return res
 
 
+VERIFICATION_FAILURES = ("precondition not satisfied", "postcondition not satisfied", "invariant not satisfied",
+                         "assertion failed", "assertion not satisfied", "decreases not satisfied",
+                         "could not prove termination", "possible arithmetic underflow/overflow",
+                         "possible division by zero", "possible bit shift underflow/overflow",
+                         "unable to prove this pattern will successfully match")
+
+
 def map_diags(meta, diags, woven_name):
     """returns (failed: {obligation_id: [messages]}, tool_errors: [str], lemma_failures: [str])"""
     obs = meta["obligations"]
@@ -113,6 +120,11 @@ def map_diags(meta, diags, woven_name):
                 or "not supported" in ml or "unsupported" in ml or "not yet support" in ml \
                 or "does not support" in ml or "not implemented" in ml or "unexpected token" in ml \
                 or ml.startswith("expected ") or "cannot find" in ml:
+            tool.append("%s @%d" % (msg, spans[0]["line_start"]))
+            continue
+        # only what the SMT back end decided counts as a failed obligation; every other error (a recursion or loop
+        # that has no `decreases` yet, a mode or type error in woven text, ...) means "needs contract": undecided
+        if not any(x in ml for x in VERIFICATION_FAILURES):
             tool.append("%s @%d" % (msg, spans[0]["line_start"]))
             continue
         rendered = (d.get("rendered") or msg)[:1500]
